@@ -6,6 +6,7 @@
 #include "llvm/IR/DataLayout.h"
 #include "llvm/IR/GetElementPtrTypeIterator.h"
 #include "llvm/IR/IRBuilder.h"
+#include "llvm/IR/InlineAsm.h"
 #include "llvm/IR/InstrTypes.h"
 #include "llvm/IR/Instructions.h"
 #include "llvm/IR/IntrinsicInst.h"
@@ -719,6 +720,11 @@ struct Tr {
   }
   std::string call_expr(const CallBase* CB)
   {
+    if (auto* IA = dyn_cast<InlineAsm>(CB->getCalledOperand())) {
+      if (IA->getAsmString().empty())
+        return ""; // compiler barrier
+      die("unsupported inline asm: " + IA->getAsmString());
+    }
     const Function* F = CB->getCalledFunction();
     Type* RT          = CB->getType();
     auto arg          = [&](unsigned i) { return val(CB->getArgOperand(i)); };
